@@ -356,14 +356,26 @@ let run_iter (src : string) : string =
       and c = strs (M.iter_read_variable_identifiers n) and d = strs (M.iter_write_variable_identifiers n)
       and e = strs (M.iter_function_identifiers n) in
       let nodes = match M.iter_all n with M.Ok l -> String.concat "," (List.map (fun x -> op_text (M.nop x)) l) | M.Err er -> "ERR " ^ error_text er | M.Panic s -> raise (Model_panic (int_of_n s)) in
+      let node_list = match M.iter_all n with M.Ok l -> List.map (fun x -> op_text (M.nop x)) l | _ -> [] in
+      let rec drop k l = if k = 0 then l else match l with [] -> [] | _ :: t -> drop (k - 1) t in
+      let others =
+        String.concat " "
+          (List.map
+             (fun k ->
+               let rest = drop k node_list in
+               Printf.sprintf "k%d:%s|%d|%s|%s" k (String.concat "," node_list) (List.length rest)
+                 (match List.rev rest with [] -> "-" | x :: _ -> x)
+                 (String.concat "" (List.map (fun x -> x ^ ";") rest)))
+             [ 0; 1; 2 ])
+      in
       let n1 = M.rename_with M.ident_read (cons_char 'r') n in
       let n2 = M.rename_with M.ident_write (cons_char 'w') n1 in
       let n3 = M.rename_with M.ident_fn (cons_char 'f') n2 in
       let n4 = M.rename_with M.ident_var (cons_char 'v') n3 in
       let n5 = M.rename_with M.ident_any (cons_char 'i') n4 in
       Printf.sprintf
-        "OK ids[%s] vars[%s] reads[%s] writes[%s] fns[%s] nodes[%s] ops[%s] idsm[%s] varsm[%s] readsm[%s] writesm[%s] fnsm[%s] renamed%s"
-        a b c d e nodes nodes a b c d e (tree_text n5)
+        "OK ids[%s] vars[%s] reads[%s] writes[%s] fns[%s] nodes[%s] ops[%s] idsm[%s] varsm[%s] readsm[%s] writesm[%s] fnsm[%s] via<%s> renamed%s"
+        a b c d e nodes nodes a b c d e others (tree_text n5)
 
 let fmt_oracle : M.fmt_oracle =
   { M.fo_float_display = (fun x -> str_of_hex (oracle_ask ("fts " ^ float_hex x)));
